@@ -192,8 +192,11 @@ def surfaceOk : Bool :=
   && [20, 21].all (fun c => sysFacts.any (fun r => r.1 == c && bit r.2 8))
   -- 3c. the three open functions open a substate, inspect the lock status and raise the locked error
   && [6, 7, 8].all (fun c => sysFacts.any (fun r => r.1 == c && bit r.2 1 && bit r.2 2 && bit r.2 6))
-  -- 3d. unlocked substates are constructed only by field_write, key_value_entry_set and the open functions
-  && sysFacts.all (fun r => !bit r.2 4 || [0, 2, 6, 7, 8].contains r.1)
+  -- 3d. unlocked substates are constructed only by field_write, key_value_entry_set and as the default
+  --     of an absent entry in the open functions (26 = read-only load of a blueprint definition)
+  && sysFacts.all (fun r => !bit r.2 4 || [0, 2, 6, 7, 8, 26].contains r.1)
+  -- 3g. … and the read-only loader neither writes nor locks
+  && sysFacts.all (fun r => r.1 != 26 || (!bit r.2 0 && !bit r.2 5 && !bit r.2 7))
   -- 3e. the lock status is set only by field_lock and key_value_entry_lock
   && sysFacts.all (fun r => !bit r.2 5 || [1, 4].contains r.1)
   -- 3f. the locked error is raised only by the open functions
